@@ -8,7 +8,7 @@ import time
 from . import facts
 
 VERIF = facts.VERIF
-EVID = os.path.join(VERIF, "evidence")
+EVID = os.environ.get("VERIF_EVIDENCE") or os.path.join(VERIF, "evidence")
 REPLAY = os.path.join(EVID, "replay")
 KNOWN = os.path.join(VERIF, "known_findings.json")
 
